@@ -158,6 +158,43 @@ theorem isEmpty_filter_iff {α : Type} (l : List α) (f : α → Bool) :
   · rintro h ⟨x, hx, hf⟩; exact h x hx hf
   · intro h x hx hf; exact h ⟨x, hx, hf⟩
 
+/-! the policies in the order of their names -/
+
+theorem insertByName_perm (p : NetPol) (l : List NetPol) : (insertByName p l).Perm (p :: l) := by
+  induction l with
+  | nil => exact List.Perm.refl _
+  | cons q qs ih =>
+    unfold insertByName
+    split
+    · exact List.Perm.refl _
+    · exact (List.Perm.cons q ih).trans (List.Perm.swap p q qs)
+
+theorem sortByName_perm (l : List NetPol) : (sortByName l).Perm l := by
+  induction l with
+  | nil => exact List.Perm.refl _
+  | cons p l ih => exact (insertByName_perm p _).trans (List.Perm.cons p ih)
+
+theorem mem_sortByName {l : List NetPol} {x : NetPol} : x ∈ sortByName l ↔ x ∈ l :=
+  (sortByName_perm l).mem_iff
+
+theorem sortByName_isEmpty (l : List NetPol) : (sortByName l).isEmpty = l.isEmpty :=
+  (sortByName_perm l).isEmpty_eq
+
+theorem policiesSelecting_pod (e : Engine) (p : Pod) (ns : Option NsObj) (d : Dir) :
+    e.policiesSelecting (.pod p ns) d = sortByName (e.netpols.filter (fun np => np.selects p d)) :=
+  rfl
+
+/-- the policies visited are policies of the engine that select the pod -/
+theorem mem_policiesSelecting {e : Engine} {p : Pod} {ns : Option NsObj} {d : Dir} {np : NetPol} :
+    np ∈ e.policiesSelecting (.pod p ns) d ↔ np ∈ e.netpols ∧ np.selects p d = true := by
+  rw [policiesSelecting_pod, mem_sortByName, List.mem_filter]
+
+theorem policiesSelecting_sub {e : Engine} {k : KPeer} {d : Dir} {np : NetPol}
+    (h : np ∈ e.policiesSelecting k d) : np ∈ e.netpols := by
+  cases k with
+  | ip r => exact absurd h List.not_mem_nil
+  | pod p ns => exact (mem_policiesSelecting.mp h).1
+
 /-- an IP block is never governed by a NetworkPolicy -/
 theorem netpolConns_ip (e : Engine) (src dst : KPeer) (isIngress : Bool) (r : CSet)
     (hself : selfPeer src dst isIngress = .ip r) :
@@ -186,14 +223,14 @@ theorem netpolConns_spec (e : Engine) (hv : e.Valid) (src dst : KPeer) (a b : In
     · simp only [selfPeer_false] at hself; subst hself; exact hs
     · simp only [selfPeer_true] at hself; subst hself; exact hd
   -- the contribution of one policy
-  have hstep : ∀ np ∈ e.netpols.filter (fun np => np.selects p (dirOf isIngress)),
+  have hstep : ∀ np ∈ sortByName (e.netpols.filter (fun np => np.selects p (dirOf isIngress))),
       (∀ c, npStep src dst isIngress np = .ok c → c.WF ∧ ∀ pr x, c.den pr x ↔
         (inRange x ∧ ∃ r ∈ Spec.npRules np (dirOf isIngress),
           Spec.npRuleAllows np r (otherEnd src dst a b isIngress) (dst.toEnd b) pr x = true)) ∧
       (∀ err, npStep src dst isIngress np = .error err →
         err = .namedPortOnIP ∧ isIngress = false ∧ dst.isPod = false) := by
     intro np hnp
-    have hnpv := hv.npRules np (List.mem_filter.mp hnp).1
+    have hnpv := hv.npRules np (List.mem_filter.mp (mem_sortByName.mp hnp)).1
     cases isIngress
     · -- egress
       simp only [npStep, Bool.false_eq_true, if_false, dirOf_false, otherEnd_false, Spec.npRules]
@@ -220,8 +257,8 @@ theorem netpolConns_spec (e : Engine) (hv : e.Valid) (src dst : KPeer) (a b : In
         cases h
   rw [netpolConns_eq, hself]
   have hpol : e.policiesSelecting (.pod p (some ns)) (dirOf isIngress) =
-      e.netpols.filter (fun np => np.selects p (dirOf isIngress)) := rfl
-  rw [hpol]
+      sortByName (e.netpols.filter (fun np => np.selects p (dirOf isIngress))) := rfl
+  rw [hpol, sortByName_isEmpty]
   have hgov := governs_iff e p (dirOf isIngress) hrep
   cases hemp : (e.netpols.filter (fun np => np.selects p (dirOf isIngress))).isEmpty
   · -- some policy selects the pod
@@ -236,7 +273,7 @@ theorem netpolConns_spec (e : Engine) (hv : e.Valid) (src dst : KPeer) (a b : In
       (fun np pr x => inRange x ∧ ∃ r ∈ Spec.npRules np (dirOf isIngress),
         Spec.npRuleAllows np r (otherEnd src dst a b isIngress) (dst.toEnd b) pr x = true)
       _ (fun np hnp => (hstep np hnp).1) (ConnSet.mk' false) (ConnSet.wf_mk false)
-    cases hf : (e.netpols.filter (fun np => np.selects p (dirOf isIngress))).foldlM
+    cases hf : (sortByName (e.netpols.filter (fun np => np.selects p (dirOf isIngress)))).foldlM
         (npFold src dst isIngress) (ConnSet.mk' false) with
     | error err' =>
       obtain ⟨np, hnp, he⟩ := f2 err' hf
@@ -261,9 +298,9 @@ theorem netpolConns_spec (e : Engine) (hv : e.Valid) (src dst : KPeer) (a b : In
         constructor
         · rintro (h | ⟨np, hnp, hx, r, hr, hal⟩)
           · exact absurd h (ConnSet.den_mk_none pr x)
-          · exact ⟨hx, np, hnp, r, hr, hal⟩
+          · exact ⟨hx, np, mem_sortByName.mp hnp, r, hr, hal⟩
         · rintro ⟨hx, np, hnp, r, hr, hal⟩
-          exact Or.inr ⟨np, hnp, hx, r, hr, hal⟩
+          exact Or.inr ⟨np, mem_sortByName.mpr hnp, hx, r, hr, hal⟩
       · intro err h; cases h
   · -- no policy selects the pod
     have hg : Spec.governs e.toView p (dirOf isIngress) = false := by
@@ -1025,10 +1062,7 @@ theorem xgressConns_ip_range_src (e : Engine) (R : Iv) (hR : R.lo ≤ R.hi) (hu 
           (ConnSet.mk' false) := by
       apply foldlM_congr_mem
       intro np hnp acc
-      have hmem : np ∈ e.netpols := by
-        cases dst with
-        | ip r => exact absurd hnp List.not_mem_nil
-        | pod p ns => exact (List.mem_filter.mp hnp).1
+      have hmem : np ∈ e.netpols := policiesSelecting_sub hnp
       simp only [npFold, npStep, if_true, NetPol.ingressAllowedConns]
       rw [NetPol.allowedConns_ip_range_src np np.ingress R hR (hu np hmem).1 a ha dst]
     simp only [this]
@@ -1055,10 +1089,7 @@ theorem xgressConns_ip_range_dst (e : Engine) (R : Iv) (hR : R.lo ≤ R.hi) (hu 
           (ConnSet.mk' false) := by
       apply foldlM_congr_mem
       intro np hnp acc
-      have hmem : np ∈ e.netpols := by
-        cases src with
-        | ip r => exact absurd hnp List.not_mem_nil
-        | pod p ns => exact (List.mem_filter.mp hnp).1
+      have hmem : np ∈ e.netpols := policiesSelecting_sub hnp
       simp only [npFold, npStep, Bool.false_eq_true, if_false, NetPol.egressAllowedConns]
       rw [NetPol.allowedConns_ip_range_dst np np.egress R hR (hu np hmem).2 a ha]
     simp only [this]
